@@ -4,6 +4,7 @@ Property theorems only (lemmas in Proofs/IdManager, Proofs/Rename).
 -/
 import Model.Expr
 import Model.IdManager
+import Model.IdSeq
 import Proofs.IdManager
 import Proofs.Rename
 
@@ -136,10 +137,133 @@ theorem dict_to_list {α} (t : Table ν) (dict : ν → Option α) (l : List α)
     l.length = t.free.length ∧ ∀ (i : Nat) (n : ν), t.free[i]? = some n → (l[i]?) = dict n :=
   mapM_spec dict t.free l h
 
+
+/-! ### any two of the five kinds -/
+
+/-- **Any two different kinds.**  A name that designates elements of two different kinds — whichever
+two of: free parameter (0), fixed parameter (1), random variable of numerical integration (2), draw
+(3), column of the database (4) — is refused.  No pair of kinds is privileged: in particular the
+clashes that involve no parameter at all (random variable / draw, draw / column, random variable /
+column) are refused like the others. -/
+theorem two_kinds_refused {α} (decls : List (Decl ν α)) (rvs draws cols : List ν) (n : ν)
+    (i j : Nat) (hij : i < j) (hj : j < 5)
+    (hi : n ∈ (mkTable decls rvs draws cols).kind i) (hjn : n ∈ (mkTable decls rvs draws cols).kind j) :
+    ∃ dups, prepare decls rvs draws cols = .error dups := by
+  rw [duplicate_iff]
+  intro hnd
+  simp only [List.nodup_append, List.mem_append] at hnd
+  obtain ⟨⟨⟨⟨-, -, h01⟩, -, h2⟩, -, h3⟩, -, h4⟩ := hnd
+  have hcases : (i = 0 ∧ j = 1) ∨ (i = 0 ∧ j = 2) ∨ (i = 1 ∧ j = 2) ∨ (i = 0 ∧ j = 3) ∨
+      (i = 1 ∧ j = 3) ∨ (i = 2 ∧ j = 3) ∨ (i = 0 ∧ j = 4) ∨ (i = 1 ∧ j = 4) ∨ (i = 2 ∧ j = 4) ∨
+      (i = 3 ∧ j = 4) := by omega
+  rcases hcases with ⟨rfl, rfl⟩ | ⟨rfl, rfl⟩ | ⟨rfl, rfl⟩ | ⟨rfl, rfl⟩ | ⟨rfl, rfl⟩ | ⟨rfl, rfl⟩ |
+    ⟨rfl, rfl⟩ | ⟨rfl, rfl⟩ | ⟨rfl, rfl⟩ | ⟨rfl, rfl⟩ <;> simp only [Table.kind, mkTable] at hi hjn
+  · exact h01 n hi n hjn rfl
+  · exact h2 n (Or.inl hi) n hjn rfl
+  · exact h2 n (Or.inr hi) n hjn rfl
+  · exact h3 n (Or.inl (Or.inl hi)) n hjn rfl
+  · exact h3 n (Or.inl (Or.inr hi)) n hjn rfl
+  · exact h3 n (Or.inr hi) n hjn rfl
+  · exact h4 n (Or.inl (Or.inl (Or.inl hi))) n hjn rfl
+  · exact h4 n (Or.inl (Or.inl (Or.inr hi))) n hjn rfl
+  · exact h4 n (Or.inl (Or.inr hi)) n hjn rfl
+  · exact h4 n (Or.inr hi) n hjn rfl
+
+/-- **…and only then**: when the columns of the table are distinct, a refusal always comes from a
+name shared by two different kinds (repeating an element of one kind is not a clash). -/
+theorem refused_only_if_two_kinds {α} (decls : List (Decl ν α)) (rvs draws cols : List ν)
+    (hcols : cols.Nodup) (h : ∃ dups, prepare decls rvs draws cols = .error dups) :
+    ∃ n i j, i < j ∧ j < 5 ∧ n ∈ (mkTable decls rvs draws cols).kind i ∧
+      n ∈ (mkTable decls rvs draws cols).kind j := by
+  rw [duplicate_iff] at h
+  by_contra hno
+  apply h
+  have key : ∀ (i j : Nat), i < j → j < 5 → ∀ a ∈ (mkTable decls rvs draws cols).kind i,
+      ∀ b ∈ (mkTable decls rvs draws cols).kind j, a ≠ b := by
+    intro i j hij hj a ha b hb hab
+    subst hab
+    exact hno ⟨a, i, j, hij, hj, ha, hb⟩
+  simp only [List.nodup_append, List.mem_append]
+  refine ⟨⟨⟨⟨nodup_sortDedup _, nodup_sortDedup _, key 0 1 (by omega) (by omega)⟩,
+    nodup_sortDedup _, ?_⟩, nodup_sortDedup _, ?_⟩, hcols, ?_⟩
+  · rintro a (ha | ha)
+    · exact key 0 2 (by omega) (by omega) a ha
+    · exact key 1 2 (by omega) (by omega) a ha
+  · rintro a ((ha | ha) | ha)
+    · exact key 0 3 (by omega) (by omega) a ha
+    · exact key 1 3 (by omega) (by omega) a ha
+    · exact key 2 3 (by omega) (by omega) a ha
+  · rintro a (((ha | ha) | ha) | ha)
+    · exact key 0 4 (by omega) (by omega) a ha
+    · exact key 1 4 (by omega) (by omega) a ha
+    · exact key 2 4 (by omega) (by omega) a ha
+    · exact key 3 4 (by omega) (by omega) a ha
+
+/-! ### sequences of calls on one numbering -/
+
+/-- the declarations reached by a sequence of calls are the starting ones rewritten by the
+`change_init_values` calls of the sequence, and by nothing else -/
+theorem runState_decls {α} [Inhabited α] (t : Table ν) (ops : List (Op ν α)) :
+    ∀ s : St ν α, (runState t s ops).decls = declsAfter s.decls ops := by
+  induction ops with
+  | nil => intro s; rfl
+  | cons o os ih =>
+    intro s
+    cases o <;> simp only [runState, declsAfter, ih] <;> simp only [step] <;> try rfl
+    split <;> rfl
+
+/-- **Fixed parameters keep exactly the value they were given**, whatever calls are made: no call
+writes the vector of fixed values. -/
+theorem seq_fixed_untouched {α} [Inhabited α] (t : Table ν) (ops : List (Op ν α)) :
+    ∀ s : St ν α, (runState t s ops).fixedVec = s.fixedVec := by
+  induction ops with
+  | nil => intro s; rfl
+  | cons o os ih =>
+    intro s
+    cases o <;> simp only [runState, ih] <;> simp only [step] <;> try rfl
+    split <;> rfl
+
+/-- **A dictionary overrides only the parameters it names — at every call.**  After any sequence
+`pre` of calls on the same numbering (evaluations with other dictionaries, with vectors, changes of
+starting values), an evaluation with dictionary `d` hands the engine, at the position of name `n`,
+the value `d n` when `n` is named and otherwise the *current starting value* of `n`: nothing that
+an earlier dictionary or vector supplied survives. -/
+theorem seq_dict_by_name {α} [Inhabited α] (t : Table ν) (decls : List (Decl ν α))
+    (pre : List (Op ν α)) (d : ν → Option α) (n : ν) (i : Nat) (hi : indexOf n t.free = some i)
+    (dflt : α) :
+    ∃ v f, (step t (runState t (initSt t decls) pre) (.evalDict d)).2 = some (v, f) ∧
+      f = fixedValues t decls ∧
+      v.getD i dflt =
+        (d n).getD (((lookupLast (declsAfter decls pre) false n).map (·.init)).getD default) := by
+  refine ⟨_, _, rfl, ?_, ?_⟩
+  · rw [seq_fixed_untouched]; rfl
+  · rw [runState_decls]
+    exact freeValues_at t _ d n i hi dflt
+
+/-- in particular the history of dictionaries and vectors is irrelevant: two states with the same
+declarations give the same evaluation under a dictionary -/
+theorem evalDict_forgets_history {α} [Inhabited α] (t : Table ν) (s s' : St ν α)
+    (hd : s.decls = s'.decls) (hf : s.fixedVec = s'.fixedVec) (d : ν → Option α) :
+    (step t s (.evalDict d)).2 = (step t s' (.evalDict d)).2 := by
+  simp only [step, hd, hf]
+
 /-! ### non-vacuity -/
 
 example : sortDedup ["b2", "b10", "a", "b2"] = ["a", "b10", "b2"] := by decide
 example : (prepare [(⟨"b", false, (1 : Int), none, none⟩ : Decl String Int), ⟨"b", true, 2, none, none⟩]
     [] [] ["x"]).toBool = false := by decide
+
+-- a draw named like a column, with no parameter involved, is refused
+example : (prepare ([⟨"b", false, (1 : Int), none, none⟩] : List (Decl String Int))
+    [] ["x"] ["x", "y"]).toBool = false := by decide
+example : "x" ∈ (mkTable ([⟨"b", false, (1 : Int), none, none⟩] : List (Decl String Int))
+    [] ["x"] ["x", "y"]).kind 3 ∧ "x" ∈ (mkTable ([⟨"b", false, (1 : Int), none, none⟩] : List (Decl String Int))
+    [] ["x"] ["x", "y"]).kind 4 := by decide
+-- second call omits what the first one named: the starting value comes back
+example : run (mkTable ([⟨"a", false, (1 : Int), none, none⟩, ⟨"b", false, 2, none, none⟩] : List (Decl String Int)) [] [] [])
+    (initSt (mkTable ([⟨"a", false, (1 : Int), none, none⟩, ⟨"b", false, 2, none, none⟩] : List (Decl String Int)) [] [] [])
+      [⟨"a", false, 1, none, none⟩, ⟨"b", false, 2, none, none⟩])
+    [.evalDict (fun n => if n = "a" then some 7 else none), .evalDict (fun n => if n = "b" then some 9 else none)]
+    = [some ([7, 2], []), some ([1, 9], [])] := by decide
 
 end C03
